@@ -4,8 +4,8 @@ package main
 
 import (
 	"go/token"
-	"strings"
 	"go/types"
+	"strings"
 
 	"golang.org/x/tools/go/ssa"
 )
